@@ -13,7 +13,7 @@ from z3 import And, Or, Not, Implies, ForAll, If
 from pyvc.values import *  # noqa
 
 Atom = z3.DeclareSort("Atom")          # a non-constant, non-negation condition expression
-LeafS = z3.DeclareSort("LeafS")        # the statement wrapped by a leaf
+from .dagspec import Stmt as LeafS     # the statement wrapped by a leaf
 LVar = z3.DeclareSort("LVar")          # loop variable name
 BExpr = z3.DeclareSort("BExpr")        # a loop bound expression
 LoopH = z3.Datatype("LoopH")           # loop header (variable, bounds)
@@ -73,6 +73,13 @@ def allk(body_fn, pat_fn=None):
     return ForAll([_k], body)
 
 
+def loop_trace(h, body_k, k):
+    """a loop is an opaque bracket pair around its body's trace; a loop whose body executes
+    nothing contributes nothing (so removing an empty loop does not change the trace)"""
+    c = Trace.TCons(Event.Close(h), k)
+    return If(body_k(c) == c, k, Trace.TCons(Event.Open(h), body_k(c)))
+
+
 def same_trace(a, b):
     """forall k. trk(a,k) == trk(b,k)"""
     return ForAll([_k], trk(a, _k) == trk(b, _k))
@@ -103,7 +110,7 @@ def definitional_axioms():
     ax.append(fa([c, a, k], trk(N.IfThen(c, a), k) == If(ev(c), trk(a, k), k), trk(N.IfThen(c, a), k)))
     ax.append(fa([c, a, b, k], trk(N.IfThenElse(c, a, b), k) == If(ev(c), trk(a, k), trk(b, k)),
                  trk(N.IfThenElse(c, a, b), k)))
-    ax.append(fa([h, a, k], trk(N.ForLoop(h, a), k) == T.TCons(E.Open(h), trk(a, T.TCons(E.Close(h), k))),
+    ax.append(fa([h, a, k], trk(N.ForLoop(h, a), k) == loop_trace(h, lambda c: trk(a, c), k),
                  trk(N.ForLoop(h, a), k)))
     ax.append(fa([l, k], trk(N.Block(l), k) == trlk(l, k), trk(N.Block(l), k)))
     ax.append(fa([k], trlk(L.Nil, k) == k, trlk(L.Nil, k)))
@@ -148,7 +155,7 @@ def unfold_node(t):
         q(N.is_Leaf(t), T.TCons(E.Exec(N.statement(t)), k)),
         q(N.is_IfThen(t), If(ev(N.it_cond(t)), trk(N.it_then(t), k), k)),
         q(N.is_IfThenElse(t), If(ev(N.ite_cond(t)), trk(N.ite_then(t), k), trk(N.ite_else(t), k))),
-        q(N.is_ForLoop(t), T.TCons(E.Open(N.header(t)), trk(N.body(t), T.TCons(E.Close(N.header(t)), k)))),
+        q(N.is_ForLoop(t), loop_trace(N.header(t), lambda c: trk(N.body(t), c), k)),
         q(N.is_Block(t), trlk(N.children(t), k)),
     ]
 
